@@ -16,7 +16,8 @@ RULE = ("(a) exhaustive: every composition of an N-day run into positive step co
         "quick, N=13 -> 4096 in thorough) on 3 fixed configurations (rainfed, threshold irrigation with groundwater, "
         "net irrigation over a harvest with the off-season simulated); (b) Hypothesis: generated configurations (1-3 seasons) x "
         "generated histories of run_model(num_steps=k, initialize_model=False) calls, k in 1..400 incl. overshooting, interleaved "
-        "with calls of all public getters. After every call: the model must report itself unfinished and return no summary until "
+        "with calls of all public getters and with a BYSTANDER (a second model of the same configuration built from its own "
+        "objects, initialised and advanced between the calls: the state of a run lives on its model object). After every call: the model must report itself unfinished and return no summary until "
         "the reference's last step, and the rows written so far must equal the reference rows; at the end all tables, the summary "
         "and the completion status must equal run_model(till_termination=True) on a fresh twin. (c) the same property as a "
         "Hypothesis RuleBasedStateMachine (rules step_small / step_medium / step_large / query_getters, the comparison with the "
@@ -75,16 +76,18 @@ def histories(draw):
     n = draw(st.integers(1, 40))
     ops = []
     for _ in range(n):
-        kind = draw(st.sampled_from(["s", "s", "m", "l", "q"]))
+        kind = draw(st.sampled_from(["s", "s", "s", "s", "m", "m", "l", "l", "q", "q", "b"]))
         if kind == "s":
             ops.append(draw(st.integers(1, 5)))
         elif kind == "m":
             ops.append(draw(st.integers(6, 80)))
         elif kind == "l":
             ops.append(draw(st.integers(81, 400)))
+        elif kind == "b":
+            ops.append(-1)  # another model of the same configuration is created / advanced in between (bystander)
         else:
             ops.append(0)  # query all getters
-    if not any(ops):
+    if not any(k > 0 for k in ops):
         ops.append(1)
     return dict(cfg=cfg, ops=ops)
 
@@ -135,12 +138,23 @@ def run_history(cfg, ops, ref, res, tag=""):
     pos = 0
     written = 0
     seasons_seen = set()
+    bystander = None
     while not done:
         k = ops[pos % len(ops)]
         pos += 1
         if pos > 5000:
             res.fail("no_termination", tag + "history of %d calls did not reach termination" % pos)
             return calls, crossed, overshoot
+        if k == -1:
+            # the state of a run lives on its model object: a second model built from its own objects and advanced
+            # between two calls must not matter
+            if bystander is None or bystander._clock_struct.model_is_finished:
+                bystander = make_model(cfg)
+                with init_guard():
+                    bystander._initialize()
+            else:
+                bystander.run_model(num_steps=97, initialize_model=False)
+            continue
         if k == 0:
             if calls == 0:
                 continue  # getters raise before the first run call (documented)
@@ -237,6 +251,8 @@ def evaluate(case):
         res.labels.add("overshoots_end")
     if 0 in ops:
         res.labels.add("getters_interleaved")
+    if -1 in ops:
+        res.labels.add("bystander_model_interleaved")
     res.labels.add("calls>=10" if calls >= 10 else "calls<10")
     if calls >= 3 and (crossed or over):
         res.keys.add("%s/%s" % (res.sample["hash"], "-".join(map(str, ops))))
@@ -249,7 +265,7 @@ def simplifications(case):
         return
     ops = case["ops"]
     for i in range(len(ops)):
-        if len(ops) > 1:
+        if len(ops) > 1 and any(k > 0 for k in ops[:i] + ops[i + 1:]):
             yield dict(cfg=case["cfg"], ops=ops[:i] + ops[i + 1:])
     for i, k in enumerate(ops):
         if k > 1:
